@@ -251,6 +251,10 @@ def _guarded_store(facts, body, src, must_o, never_o):
         tgt = loc_target(it, w.loc)
         if tgt and tgt[0] == 1 and tgt[1] == ('val',) and versionless(w.val) == want:
             site = bb
+        elif tgt and tgt[0] == 1 and tgt[1] == () and src == ('val',) and versionless(w.val) == ('param', 2):
+            site = bb       # `*self = other`: the register is its value
+        elif tgt and tgt[0] == 1 and tgt[1] == () and drop_lv(w.val)[0] == 'agg' and [versionless(v_) for _n, v_ in drop_lv(w.val)[3]] == [want]:
+            site = bb       # `*self = MaxReg { val: v }`
 
     def classify(a, b, t):
         for x, y, orient in ((a, b, 'fwd'), (b, a, 'rev')):
@@ -320,6 +324,23 @@ def _pn_fields(facts, ctx):
     r = drop_lv(interp(facts, body).ret)
     if r[0] == 'post' and r[2] == 0 and is_call(r[1], 'sub_assign') and len(r[1][2]) == 2:
         r = ('call', r[1][1], r[1][2])      # `total -= x; total` is `total - x`
+    if r[0] == 'phi' and len(r[1]) == 2:
+        # `if n.is_zero() { return p }  p - n`: the minuend alone where the subtrahend is zero, the difference elsewhere
+        alts = [drop_lv(a_) for a_ in r[1]]
+        for d_, m_ in ((alts[0], alts[1]), (alts[1], alts[0])):
+            if is_call(d_, ('sub', 'sub_assign')) and len(d_[2]) == 2 and versionless(strip_lossless(d_[2][0])) == versionless(strip_lossless(m_)):
+                sub_t = versionless(strip_lossless(d_[2][1]))
+
+                def zero_atom(t, sub_t=sub_t):
+                    if is_call(t, 'is_zero') and len(t[2]) == 1 and versionless(strip_lossless(t[2][0])) == sub_t:
+                        return 'z'
+                    return None
+                it_ = interp(facts, body)
+                ev_ = Evaluator(facts, bool_atom=zero_atom, assumption={'z': False})
+                rc_ = Reach(facts, body, ev_)
+                live = [w_ for k_, w_ in it_.ret_assigns.items() if k_[0] in rc_.reachable]
+                if ev_.hits and len(live) == 1 and drop_lv(live[0].val) == d_:
+                    r = d_
     if not (is_call(r, ('sub', 'sub_assign')) and len(r[2]) == 2):
         return None, None, body, r
 
@@ -553,9 +574,16 @@ def gset_glist(ctx):
         rc = Reach(facts, body, Evaluator(facts))
         ok = False
         if name == 'apply':
+            # (inserting a member the set already holds changes nothing: the insert must happen in the world where it does not)
+            def has_atom(t):
+                if is_call(t, 'contains') and len(t[2]) == 2 and param_path(versionless(t[2][0])) in ((1, ()), (1, ('value',))) \
+                        and versionless(t[2][1]) == ('param', 2):
+                    return 'has'
+                return None
+            rc_new = Reach(facts, body, Evaluator(facts, bool_atom=has_atom, assumption={'has': False}))
             for bb, c in it.calls.items():
                 if call_name(c.term) == 'insert' and param_path(c.args[0].val) and param_path(c.args[0].val)[0] == 1 and versionless(c.args[-1].val) == ('param', 2):
-                    ok = rc.must_pass([bb])
+                    ok = rc.must_pass([bb]) or rc_new.must_pass([bb])
         else:
             ok, _site = adds_every(facts, body, it, ('value',), 2, ('value',))
         ctx.check(ok and writes, 'GSet::' + name, body, 'every incoming element inserted into value',
